@@ -620,14 +620,17 @@ def diagnose(exe, case, wdir, failure):
         return st == want
 
     # 1. functional constraints marked unused whose result variable is still referenced by the delivered model
-    U = [key for key, data, f in funcs if (status.get(key) or {}).get('unused') == 1 and _referenced_by_delivered(D, data['res_var'])]
+    # (or asserted through its bounds: a root logical constraint whose Or/And was merged with a nested copy)
+    U = [key for key, data, f in funcs if (status.get(key) or {}).get('unused') == 1 and
+         (_referenced_by_delivered(D, data['res_var']) or D.lb[data['res_var']] == D.ub[data['res_var']])]
     info['unused_but_referenced'] = [[SHORT2LONG[k[0]], k[1]] for k in U]
-    if U and repaired(set(U)):
+    if U:
         types = '+'.join(sorted(set(SHORT2LONG[k[0]] for k in U)))
+        conv = any((status.get(k) or {}).get('converted') for k in U)
         if repaired(set(U), relax=True, define=False):
             return 'unused-var-fixed:' + types, info           # the variable was fixed to 0 as "unused"
-        conv = any((status.get(k) or {}).get('converted') for k in U)
-        return ('late-context-map-reuse:' if conv else 'unused-but-referenced:') + types, info
+        if repaired(set(U), relax=False, define=True) or repaired(set(U), relax=True, define=True):
+            return ('late-context-map-reuse:' if conv else 'unused-but-referenced:') + types, info
     # 2. single functional constraints whose enforcement repairs the point
     culprits = [(key, data) for key, data, f in funcs if repaired({key}, relax=(want == 'sat'))]
     info['culprits'] = [{'type': SHORT2LONG[k[0]], 'index': k[1], 'status': status.get(k), 'data': dt} for k, dt in culprits]
@@ -697,6 +700,49 @@ def fold_constant_subexprs(case, only_op=None):
         if o['nl'] is not None:
             o['nl'] = c01gen.e2j(fold(c01gen.j2e(o['nl'])))
     return new, sorted(ops)
+
+
+def distribute_constants(case):
+    """NL-semantics-preserving rewrite: (a + b + k) * c  ->  a*c + b*c + k*c  (c constant), recursively.
+    -> (rewritten case, number of rewrites)"""
+    import copy
+    cnt = [0]
+
+    def mulc(e, c):
+        k = e[0]
+        if k == 'n':
+            return ('n', F(e[1]) * c)
+        if k in ('+', '-'):
+            cnt[0] += 1
+            return (k, mulc(e[1], c), mulc(e[2], c))
+        if k == 'sum':
+            cnt[0] += 1
+            return ('sum', [mulc(a, c) for a in e[1]])
+        if k == 'neg':
+            return ('neg', mulc(e[1], c))
+        return ('*', ('n', c), e)
+
+    def walk(e):
+        if e[0] in ('n', 'v', 'T', 'F', 'pl'):
+            return e
+        if e[0] in c01gen.CNT:
+            return (e[0], walk(e[1]), ('count', [walk(a) for a in e[2][1]]))
+        e = c01gen.rebuild(e, [walk(c) for c in c01gen.children(e)])
+        if e[0] == '*':
+            for a, b in ((e[1], e[2]), (e[2], e[1])):
+                if a[0] == 'n' and b[0] in ('+', '-', 'sum', 'neg'):
+                    return mulc(b, F(a[1]))
+        return e
+    new = copy.deepcopy(case)
+    M = new['model']
+    for c in M['cons']:
+        if c['nl'] is not None:
+            c['nl'] = c01gen.e2j(walk(c01gen.j2e(c['nl'])))
+    M['lcons'] = [c01gen.e2j(walk(c01gen.j2e(l))) for l in M['lcons']]
+    for o in M['objs']:
+        if o['nl'] is not None:
+            o['nl'] = c01gen.e2j(walk(c01gen.j2e(o['nl'])))
+    return new, cnt[0]
 
 
 PRE_OPTS = ('cvt:pre:all=0', 'cvt:pre:eqresult=0', 'cvt:pre:eqbinary=0', 'cvt:pre:unnest=0')
@@ -1048,6 +1094,10 @@ def process_case(args):
                                 pre, _ = diagnose(exe, case, wdir, f0)
                                 if pre.split(':')[0] in ('unsound', 'incomplete', 'objective', 'objective-unattained'):
                                     pre = const_fold_class(exe, case, wdir) or None
+                                    if pre is None:
+                                        dist, nrw = distribute_constants(case)
+                                        if nrw and not any_failure(exe, dist, wdir, ignore_crash=True):
+                                            pre = 'multiplyout-const-times-sum'
                             except Exception:
                                 pre = None
                         skip = pre is not None and _seen_count(wbase, pre) >= MAX_SHRINK_PER_CLASS
@@ -1064,6 +1114,10 @@ def process_case(args):
                         sig, info = diagnose(exe, small, wdir, fs[0])
                         if sig.split(':')[0] in ('unsound', 'incomplete', 'objective', 'objective-unattained'):
                             cf = const_fold_class(exe, small, wdir)
+                            if not cf:
+                                dist, nrw = distribute_constants(small)
+                                if nrw and not any_failure(exe, dist, wdir, ignore_crash=True):
+                                    cf = 'multiplyout-const-times-sum'
                             if cf:
                                 info['fallback_sig'] = sig
                                 sig = cf
@@ -1157,12 +1211,14 @@ def run(ck):
     except ImportError:
         c01_gadgets = None
     if c01_gadgets is not None:
-        c01_gadgets.run_gadgets(ck)
+        res = c01_gadgets.run_gadgets(ck)
+        if hasattr(c01_gadgets, 'report'):
+            c01_gadgets.report(ck, res)
     else:
         ck.log('stage A (gadget theorems, checks/c01_gadgets.py) not present in this tree: end-to-end stage only')
         ck.cov.setdefault('obligations', 0)
         ck.cov.setdefault('discharged', 0)
-        ck.level = 'sampled'
+        ck.level = 'exploration'
     run_e2e(ck)
 
 
@@ -1175,6 +1231,10 @@ def run_e2e(ck):
     shutil.rmtree(wbase, ignore_errors=True)
     os.makedirs(wbase, exist_ok=True)
     budget = float(os.environ.get('C01_BUDGET_S', 75 if ck.tier == 'quick' else 1080))
+    t_build = time.time() - t_start
+    if ck.tier == 'quick' and t_build > 60 and 'C01_BUDGET_S' not in os.environ:
+        budget = 60.0                      # cold build: keep the whole quick tier near 3 minutes
+    t_start = time.time()                  # the budget counts the end-to-end stage only
     ncases_max = int(os.environ.get('C01_MAX_CASES', 100000))
     corpus = load_corpus()
     agg = Agg()
@@ -1289,7 +1349,9 @@ class Agg:
             if self.sigs[sig] == 1:
                 ck.sample('finding %s: %s' % (sig, what[:300]))
         elif st in ('bad-refusal', 'crash'):
-            sig = st + ':' + (out.get('frame') or model_ops_key(out['case']))
+            sig = ('crash:segv:' if st == 'crash' else st + ':') + (out.get('frame') or model_ops_key(out['case']))
+            if corpus and out['case'].get('expect_sig') == sig:
+                self.corpus_repro += 1
             self.sigs[sig] = self.sigs.get(sig, 0) + 1
             self.save_found(sig, out.get('what', '').split('\n')[0][:200], {'model_text': model_text(out['case']), 'options': out['case']['cfg']['options'],
                                                                               'accept': out['case']['cfg']['accept']}, out)
@@ -1335,10 +1397,12 @@ class Agg:
         ck.log('  delivered native functional constraints by ctx: %s' % dict(sorted(self.ctx_deliv.items())))
         ck.log('  refusal kinds: %s' % dict(sorted(self.refusals.items())))
         ck.log('  failure signatures: %s' % dict(sorted(self.sigs.items())))
-        ck.cov['evaluations'] = self.points
-        ck.cov['distinct_nontrivial'] = self.models_mixed
-        ck.cov['rule'] = 'models whose grid has both NL-feasible and NL-infeasible points and whose delivered model was decided at every grid point'
-        ck.cov['traces_validated_against_impl'] = self.models_checked
+        # stage A (gadgets) may already have filled these four; add the end-to-end counters
+        ck.cov['evaluations'] = int(ck.cov.get('evaluations') or 0) + self.points
+        ck.cov['distinct_nontrivial'] = int(ck.cov.get('distinct_nontrivial') or 0) + self.models_mixed
+        rule = 'end-to-end: models whose grid has both NL-feasible and NL-infeasible points and whose delivered model was decided at every grid point'
+        ck.cov['rule'] = (ck.cov['rule'] + '; ' + rule) if ck.cov.get('rule') else rule
+        ck.cov['traces_validated_against_impl'] = int(ck.cov.get('traces_validated_against_impl') or 0) + self.models_checked
         ck.cov['exhaustive'] = False
         ck.cov['e2e'] = {
             'cases': self.n, 'status': self.status, 'models_checked': self.models_checked, 'models_mixed': self.models_mixed,
